@@ -99,6 +99,35 @@ pub fn run(out: &mut Out, seed: u64, thorough: bool) {
         }
     }
 
+    // ------------------------- label content: one non-zero byte at every position, all ones, the 3-byte zero label
+    let mut odd: Vec<Label> = vec![];
+    for i in 0..6 {
+        let mut b = [0u8; 6];
+        b[i] = 1 + i as u8;
+        odd.push(Label::SixBytesLabel(b));
+        let mut c = [0u8; 6];
+        c[i] = 0xFF;
+        odd.push(Label::SixBytesLabel(c));
+    }
+    odd.push(Label::SixBytesLabel([0xFF; 6]));
+    for i in 0..3 {
+        let mut b = [0u8; 3];
+        b[i] = 0x80;
+        odd.push(Label::ThreeBytesLabel(b));
+    }
+    odd.extend([Label::ThreeBytesLabel([0, 0, 0]), Label::ThreeBytesLabel([0xFF; 3])]);
+    let odd_pdus: Vec<Pdu> = [5usize, 26, 4090].iter().map(|n| Pdu::random(out, *n, &mut rng)).collect();
+    for label in &odd {
+        for (pi, blen) in [(0usize, 64usize), (1, 12), (1, 40), (2, 4097)] {
+            out.begin("lattice", Obj::new().str("what", "label_content"));
+            let mut enc = Encapsulator::new(DefaultCrc {});
+            ev_encap(out, &mut enc, &odd_pdus[pi], 3, *label, 0x0800, blen, None, None);
+            ev_preview(out, &odd_pdus[pi], *label, 0x0800, blen);
+            // and once more: the second packet to the same label is a re-use
+            ev_encap(out, &mut enc, &odd_pdus[0], 3, *label, 0x0800, 64, None, None);
+        }
+    }
+
     // -------------------------------------- protocol-type classes and prior states
     let ptypes: Vec<u16> = if thorough {
         vec![0, 0x0081, 0x00FF, 0x0100, 0x0101, 0x03FF, 0x05FF, 0x0600, 0x0601, 0x86DD, 0xFFFE, 0xFFFF]
